@@ -19,8 +19,8 @@ Proof. exact ja_symbols_closed. Qed.
 
 (* ... and those are the lookups the Prolog printers make: op_string of binary nodes (en), op_symbol of every inner node (ja) *)
 Theorem C19_prolog_lookups :
-  option_map f_labels (find_spec l_en [112;114;111;108;111;103]) = Some [(s_binary, s_op_string, map fst prolog_op_mapping)]
-  /\ option_map f_labels (find_spec l_ja [112;114;111;108;111;103]) = Some [(s_nonleaf, s_op_symbol, map fst prolog_ja_combinators)].
+  looks_up l_en [112;114;111;108;111;103] (s_binary, s_op_string, map fst prolog_op_mapping)
+  /\ looks_up l_ja [112;114;111;108;111;103] (s_nonleaf, s_op_symbol, map fst prolog_ja_combinators).
 Proof. exact prolog_lookups. Qed.
 
 (* every tree whose leaf tokens have at least 'word' and whose labels are of the language's grammar renders in every format
